@@ -71,6 +71,24 @@ func body(r *vf.Run) {
 		batch(r)
 	case "solo":
 		solo(r)
+	case "gen":
+		// development aid: generate every input of the tier and report generator panics / sizes
+		pool := newPool(r)
+		n := envInt("C04_N", r.N(3000, 30000))
+		var total int64
+		for i := 0; i < n; i++ {
+			p, v, st := vf.Recover(func() {
+				in := makeInput(r, pool, i)
+				total += int64(len(in.Blob))
+				if in.Build != nil {
+					total += int64(len(in.Build.In))
+				}
+			})
+			if p {
+				fmt.Printf("GENERATOR PANIC at %d: %v\n%s\n", i, v, st)
+			}
+		}
+		fmt.Printf("generated %d inputs, %d bytes\n", n, total)
 	default:
 		r.Inconclusive("unknown stage " + r.Child)
 	}
@@ -424,9 +442,9 @@ func batch(r *vf.Run) {
 	jw("START %d %d\n", from, to)
 	pool := newPool(r)
 	sh := &shared{dir: filepath.Join(r.Scratch, "shared")}
-	softCPU := time.Duration(envInt("C04_SOFT_CPU_S", 8)) * time.Second
+	softCPU := time.Duration(envInt("C04_SOFT_CPU_S", 15)) * time.Second
 	if r.RaceBuild {
-		softCPU = time.Duration(envInt("C04_SOFT_CPU_RACE_S", 40)) * time.Second
+		softCPU = time.Duration(envInt("C04_SOFT_CPU_RACE_S", 60)) * time.Second
 	}
 	var curIdx = -1
 	if r.RaceBuild {
@@ -446,7 +464,18 @@ func batch(r *vf.Run) {
 		if isRaceCase(i) != race {
 			continue
 		}
-		in := makeInput(r, pool, i)
+		if gens := os.Getenv("C04_GENS"); gens != "" {
+			// development aid (mutation runs): only the cases of the named generators,
+			// same indices and inputs as in the full run
+			if g, _ := ordinal(i); !strings.ContainsRune(gens, rune(g)) {
+				continue
+			}
+		}
+		var in *input
+		if p, v, _ := vf.Recover(func() { in = makeInput(r, pool, i) }); p || in == nil {
+			r.Inconclusive(fmt.Sprintf("harness: generator panic: %v", v))
+			continue
+		}
 		curIdx = i
 		jw("BEGIN %d %s\n", i, in.Gen)
 		c := &caseRun{sh: sh, r: r, pool: pool, in: in, rng: r.RNG(0xc0de, uint64(i)), race: r.RaceBuild}
